@@ -206,12 +206,9 @@ func redactCommand(cmd *orderedmap.OrderedMap[string, any], shouldEagerRedact bo
 	}
 	if pipeline, ok := cmd.Get("pipeline"); ok {
 		if pipelineArr, ok := pipeline.([]any); ok {
-			newPipeline := make([]any, len(pipelineArr))
-			for i, stage := range pipelineArr {
-				inSearchStage := isInSearchStage(stage)
-				newPipeline[i] = redactPipelineStage(stage, shouldEagerRedact, []string{}, inSearchStage)
-			}
-			cmd.Set("pipeline", newPipeline)
+			// stage documents are walked one by one; a member that is not a stage document (a stray
+			// literal or array in a pipeline the server rejected but still logged) is redacted too
+			cmd.Set("pipeline", redactSubPipeline(pipelineArr, shouldEagerRedact))
 		}
 	}
 }
@@ -395,11 +392,7 @@ func redactPipelineStage(stage interface{}, redactFieldNames bool, keyPath []str
 							subK := subEl.Key
 							subV := subEl.Value
 							if subVArr, ok := subV.([]any); ok {
-								newPipeline := make([]any, len(subVArr))
-								for i, stage := range subVArr {
-									newPipeline[i] = redactPipelineStage(stage, redactFieldNames, []string{}, isInSearchStage(stage))
-								}
-								newPipelineMap.Set(subK, newPipeline)
+								newPipelineMap.Set(subK, redactSubPipeline(subVArr, redactFieldNames))
 							} else {
 								// not a sub-pipeline: keep the member, redacting what can be walked
 								newPipelineMap.Set(subK, redactPipelineStage(subV, redactFieldNames, []string{}, false))
